@@ -5,9 +5,14 @@ from core import *
 import known
 
 
-def _drive_and_validate(work, fam, P, tier, seed, binary, sub, replay_file=None):
+def _drive_and_validate(work, fam, P, tier, seed, binary, sub, replay_file=None, extra_inputs=None):
     out = work.sub(sub)
     args = dict(fam.get("args", {}))
+    if extra_inputs:
+        ef = os.path.join(work.dir, "extra-inputs.json")
+        with open(ef, "w") as f:
+            json.dump(extra_inputs, f)
+        args["extra"] = ef
     args.update(P.get("args", {}))
     args.update((P.get("tier_args", {}) or {}).get(tier, {}))
     meta = run_vdrive(binary, fam["vdrive"], out, tier, seed, args=args, replay=replay_file,
@@ -32,7 +37,13 @@ def _run_check(pid, P, fam, tier, seed, work, t0):
         pre()
     binary = build_vdrive(race=fam.get("race", False))
     base = check_base(work, (P.get("base", {}) or {}).get(tier, []))
-    out, meta, val = _drive_and_validate(work, fam, P, tier, seed, binary, "drive")
+    # counter-examples TLC found on design variants are replayed into the real code as extra inputs
+    extra = []
+    if fam.get("cex_input"):
+        for b in base:
+            if b.get("counterexample_actions"):
+                extra.append(fam["cex_input"](b["counterexample_actions"]))
+    out, meta, val = _drive_and_validate(work, fam, P, tier, seed, binary, "drive", extra_inputs=extra)
 
     mach = [v for v in val["viols"] if v["prop"] == "MACHINERY"]
     if mach:
